@@ -1,4 +1,4 @@
-"""Mutation experiments for C05 / C06 (never touches /repo: a scratch worktree /tmp/c05-repo).
+"""Mutation experiments for C05 / C06 (never touches /repo: a scratch worktree, /tmp/c05-repo or $MUT_REPO).
 usage: python3 notes/C05.mutate.py [names...]     (creates /tmp/c05-repo if missing; remove it afterwards with
        git -C /repo worktree remove --force /tmp/c05-repo)"""
 import json
